@@ -23,3 +23,7 @@ reg("C04", "fault_enumeration", "DESIGN 5.3 C04",
     "Storage faults are injected into the blob at rest between protect and unprotect (every single-bit flip and every truncation of the enumerated base blobs - 4 hashes x nonce/DH/P256/P384, both layouts, reference- and library-made - plus PRNG substitution/insertion/deletion, multi-site and field-targeted corruption); the real unprotect runs with correct offline key material and no reachable DC; the only violation is 'returned bytes differ from the original plaintext'.",
     "trusted: AES-KW/AES-GCM primitives of the cryptography package; ref.cms offset map for field targeting; a connection attempt is classified at the seam as needs-network",
     T + ": enumerated storage faults (bit rot, torn records) on the blob at rest")
+reg("C05", "fault_enumeration", "DESIGN 5.3 C05",
+    "The same storage-fault injector as C04 plus structure-aware DER corruption of every TLV node, boundary values in every key-identifier field, whole-record garbage and PRNG strings feed the real unprotect (offline root key, and empty cache with no reachable DC); outcome must be returns / needs-network / one of the deliberate error types, within a KDF budget of 300 calls and a traced-line budget affine in the input length (deterministic counters turn hangs into replayable verdicts).",
+    "trusted: budgets are generous multiples of maxima on valid input; sys.settrace line counting restricted to dpapi_ng frames; PRNG byte strings are a weak generator",
+    T + ": enumerated storage faults with deterministic step budgets as bounded-liveness oracle")
